@@ -10,7 +10,11 @@ def check(tier, seed):
         streams=[dict(name="movegen_model_vs_engine", kind="coqcases", shards=lambda t: 2 if t == "quick" else 16,
                       args=lambda t, s, sh, path: ["c01-cases", 50 if t == "quick" else 300, s * 1000 + 800 + sh, path],
                       ok_marker="M = ([], [], [])", coq_timeout=3000),
-                 pos_stream("legal_moves_vs_spec", ["legal-move-list", "perft"])])
+                 pos_stream("legal_moves_vs_spec", ["legal-move-list", "perft"]),
+                 # perft and the search do not use the legal move list: they make every pseudo-legal move and keep those that
+                 # pass WasLegalMove; "the moves the engine treats as legal" therefore includes that filter (every pseudo-legal
+                 # move generated without the evasion hint, castling while in check among them)
+                 pos_stream("assumption_legality_filter_after_the_move", ["legality-post"], npos_quick=300, npos_thorough=3000)])
 
 
 def replay(path):
